@@ -1198,6 +1198,13 @@ func (m *Model) CompareListing(now time.Time, opDesc string, items []queue.Envel
 			m.Stats.EvictionsSeen++
 			continue
 		}
+		if m.pruneEligible(x, now) {
+			// stored with a received_at already beyond the retention age (explicit
+			// timestamp) and removed by the retention pass of the call that made
+			// this listing, before anybody learned its id
+			m.Stats.PrunesAdopted++
+			continue
+		}
 		vs = append(vs, viol("C02.lost.enqueue", "C02,C01,C12", "after %s: an accepted message (route %s target %s payload %x) is not in the queue", opDesc, x.Route, x.Target, trunc(x.Payload)))
 	}
 
